@@ -340,7 +340,8 @@ class _ReadSourceGenerator:
 
         fmt = _optimize_struct_fmt(info)
         if fmt == "x" or (len(fmt) == 2 and fmt[0].isdigit() and fmt[1] == "x"):
-            unpack = ""
+            # Nothing to unpack, but a zero-length array of a packed type still takes an (empty) slice of data
+            unpack = "data = ()\n" if any("data[" in read for read in reads) else ""
         else:
             unpack = f'data = _struct(cls.cs.endian, "{fmt}").unpack(buf)\n'
 
